@@ -26,7 +26,8 @@ class TimedMutex : public Mutex {
   bool TimedWaitHelper(const Timeout& timeout) {
     bool r = true;
     if (_occupied) {
-      r = _queue.Wait(timeout) == WaitStatus::Ready;
+      // another fiber may have taken the mutex between the notify and our resumption: then the attempt fails
+      r = _queue.Wait(timeout) == WaitStatus::Ready && !_occupied;
     }
     YACLIB_DEBUG(r && _occupied, "about to be locked twice");
     if (r) {
